@@ -491,7 +491,8 @@ class Engine(Interp):
             mkey = (inst.id, sig)
             hit = ctx.memo.get(mkey)
             if hit is not None:
-                tmpl, tst, obls, muts = hit
+                tmpl, tst, obls, muts = hit[:4]
+                alias = hit[4] if len(hit) > 4 else {}
                 if ctx.quiet == 0:
                     for o in obls:
                         o.quiet = False
@@ -501,7 +502,9 @@ class Engine(Interp):
                     p_ = args[ai]
                     self.store_at_strong(st, p_.key, p_.proj, self.instantiate(st, mt, tst))
                 ctx.memo_hits = getattr(ctx, "memo_hits", 0) + 1
-                return [(self.instantiate(st, tmpl, tst), st)]
+                # result integers that ARE argument integers (a conversion that returns its argument) keep that identity
+                pre = {tv: args[ai].vid for tv, ai in alias.items() if ai < len(args) and type(args[ai]) is I}
+                return [(self.instantiate(st, tmpl, tst, pre), st)]
         fid = ctx.frame_id(parent_fr.id if parent_fr else 0, site, inst.id)
         fr = Frame(fid, inst, body, parent_fr, (parent_fr.depth + 1) if parent_fr else 0)
         for i, a in enumerate(args):
@@ -568,7 +571,9 @@ class Engine(Interp):
                 if ok_m:
                     try:
                         self._sig(rst, ret, True, 0)
-                        ctx.memo[mkey] = (ret, snap, ctx.obl[n_obl0:], muts)
+                        argv = {a.vid: ai for ai, a in enumerate(args) if type(a) is I}
+                        alias = {i.vid: argv[i.vid] for _, i in iter_ints(ret) if i.vid in argv}
+                        ctx.memo[mkey] = (ret, snap, ctx.obl[n_obl0:], muts, alias)
                     except Unsupported:
                         pass
             return [(ret, rst)]
@@ -614,8 +619,8 @@ class Engine(Interp):
             out[i.vid] = (st.itv[i.vid], st.taint.get(i.vid))
         return out
 
-    def instantiate(self, st, tmpl, snap):
-        m = {}
+    def instantiate(self, st, tmpl, snap, pre=None):
+        m = dict(pre or {})
 
         def f(i):
             if i.vid not in m:
